@@ -42,7 +42,7 @@ CHECKS = {
     "C39": {
         "bin": "c39", "kind": "sched", "engine": "SCHED", "level": "model_checking",
         "technique": "stateless model checking of the real code: every thread schedule up to a preemption bound (iterative context bounding on shuttle's executor)",
-        "text": "The real MemoryBudget (4 MiB limit) is driven by 2-3 shuttle threads allocating/releasing 64 KiB-3 MiB in the same and different pools; every schedule with <=4 (thorough 8) preemptions for 2 threads and <=2 (3) for 3 threads is executed, each atomic load/CAS of budget.rs being a scheduling point. At quiescence the sum of successful allocations is compared with the limit, every pool counter with a ledger of successful calls, and everything must return to zero.",
+        "text": "The real MemoryBudget (4 MiB limit) is driven by 2-3 shuttle threads allocating/releasing 64 KiB-3 MiB in the same and different pools; every schedule with <=4 (thorough 8) preemptions for 2 threads and <=2 (3) for 3 threads is executed, each atomic load/CAS of budget.rs being a scheduling point. At quiescence the sum of successful allocations is compared with the limit, every pool counter with a ledger of successful calls, and everything must return to zero. Two scenarios (bound 3) add an in-flight oracle: a thread that was just granted a request of limit/2+4 KiB reads total_used() while holding the grant and must see at most the limit.",
         "note": "Sequentially consistent atomics (shuttle); sizes and pools from a small alphabet.",
     },
 }
